@@ -14,6 +14,7 @@ import (
 
 	kafka "github.com/segmentio/kafka-go"
 	"github.com/segmentio/kafka-go/protocol"
+	"github.com/segmentio/kafka-go/protocol/listoffsets"
 
 	"verif/engine/bub"
 	"verif/engine/fk"
@@ -184,6 +185,82 @@ func TestCheck(t *testing.T) {
 						}
 					}
 				}
+			}
+		}
+	}
+
+	// A2. one of the sub-requests a ListOffsets call is split into fails (error code or lost connection) while
+	// its siblings - other timestamps of the same partition, other partitions - succeed: the partitions the
+	// failed sub-request covered report an error, all others their exact values
+	s.Begin("client-listoffsets-one-subrequest-fails")
+	for _, tn := range []string{"first+last", "all"} {
+		for k := 0; k < 9; k++ {
+			for _, ans := range []string{"err:6", "err:43", "drop"} {
+				tn, k, ans := tn, k, ans
+				id := fmt.Sprintf("ts=%s subrequest#%d answered %s", tn, k, ans)
+				s.Case(id, id, func() (string, *seqx.Viol) {
+					var v *seqx.Viol
+					key := ""
+					br := bub.Run(t, 0, func() {
+						c := mkCluster([3]int{1, 2, 1})
+						seen := 0
+						badParts := map[int]bool{}
+						c.Script = func(e *fk.Entry) string {
+							r, ok := e.Msg.(*listoffsets.Request)
+							if !ok {
+								return ""
+							}
+							seen++
+							if seen-1 != k {
+								return ""
+							}
+							for _, tp := range r.Topics {
+								for _, pp := range tp.Partitions {
+									badParts[int(pp.Partition)] = true
+								}
+							}
+							return ans
+						}
+						cl, tr := clientops.NewClient(c)
+						defer tr.CloseIdleConnections()
+						req := &kafka.ListOffsetsRequest{Topics: map[string][]kafka.OffsetRequest{}}
+						for p := 0; p < 3; p++ {
+							for _, ts := range tsSets[tn] {
+								req.Topics["t"] = append(req.Topics["t"], kafka.OffsetRequest{Partition: p, Timestamp: ts})
+							}
+						}
+						res, err := cl.ListOffsets(ctx, req)
+						if len(badParts) == 0 {
+							key = "not-injected"
+							return
+						}
+						if err != nil {
+							key = "call-error"
+							v = &seqx.Viol{Sig: "listoffsets-not-isolated", Msg: fmt.Sprintf("ListOffsets failed as a whole (%s) because sub-request #%d (partitions %v) was answered %s", hx.ErrString(err), k, badParts, ans)}
+							return
+						}
+						for _, po := range res.Topics["t"] {
+							part := c.Part("t", po.Partition)
+							if badParts[po.Partition] {
+								key += fmt.Sprintf("p%d:err=%v ", po.Partition, po.Error != nil)
+								if po.Error == nil {
+									v = &seqx.Viol{Sig: "listoffsets-error-lost", Msg: fmt.Sprintf("a sub-request covering partition %d was answered %s, but the partition is reported without error: first=%d last=%d offsets=%v", po.Partition, ans, po.FirstOffset, po.LastOffset, po.Offsets)}
+									return
+								}
+								continue
+							}
+							if po.Error != nil || po.FirstOffset != part.Start || po.LastOffset != part.End {
+								v = &seqx.Viol{Sig: "listoffsets-error-spread", Msg: fmt.Sprintf("partition %d (no sub-request of it failed) reports first=%d last=%d error=%v; the cluster holds %d..%d", po.Partition, po.FirstOffset, po.LastOffset, po.Error, part.Start, part.End)}
+								return
+							}
+							key += fmt.Sprintf("p%d:ok ", po.Partition)
+						}
+					})
+					if br.Panic != "" {
+						return "panic", &seqx.Viol{Sig: "panic", Msg: br.Panic}
+					}
+					return key, v
+				})
 			}
 		}
 	}
